@@ -64,6 +64,7 @@ TLostStim == /\ Ev("lost") /\ UNCHANGED vars /\ UNCHANGED <<maxd, hist>> /\ ~owe
 TDone == Ev("done") /\ done = E.how /\ UNCHANGED vars /\ Same
 \* listeners: every session the component created saw connect .. disconnect, each once
 Expected(h) == CASE h = "abort" -> {"connect", "leave", "disconnect"}
+                 [] h = "prelost" -> {"connect", "disconnect"}           \* attached, never joined: no "leave"
                  [] h \in {"ended", "joined"} -> {"connect", "join", "ready", "leave", "disconnect"}
                  [] OTHER -> {}
 Sessions == SelectSeq(hist, LAMBDA h : Expected(h) # {})
